@@ -345,6 +345,27 @@ Section SPLIT.
     unfold split_check in HC. apply andb_true_iff in HC as [H0 _]. apply andb_true_iff in H0 as [H0 _].
     apply andb_true_iff in H0 as [H0 _]. apply Nat.leb_le in H0. unfold inr. simpl. lia.
   Qed.
+  Theorem split_bisimulation_data db da :
+    split_data_check F f g db da = true ->
+    exists R, bisimulation M osem lv g f R /\
+      forall b Tb i tb ta c m, inr b -> djmp_of (nth_block f b) = Some Tb ->
+        nth_error db i = Some tb -> nth_error da i = Some ta -> In tb (labels_of (i_args Tb)) ->
+        R (Run ta 0 (Some b) c m) (Run tb 0 (Some b) c m).
+  Proof.
+    intros H. unfold split_data_check in H. apply andb_true_iff in H as [He Hall]. apply (list_eqb_eq _ N_eqb_eq') in He. subst da.
+    exists Rs. split.
+    - split; [|split; [apply split_fwd | apply split_bwd]].
+      intros c m. apply Rs_main; [| apply agree_refl | left; auto].
+      unfold split_check in HC. apply andb_true_iff in HC as [H0 _]. apply andb_true_iff in H0 as [H0 _].
+      apply andb_true_iff in H0 as [H0 _]. apply Nat.leb_le in H0. unfold inr. simpl. lia.
+    - intros b Tb i tb ta c m Hb Hdj H1 H2 Hin. rewrite H1 in H2. inversion H2; subst ta.
+      pose proof (forallb_seq _ _ Hall _ Hb) as Hx. cbv beta zeta in Hx. rewrite N2Nat.id, Hdj in Hx.
+      destruct (last_inst (nth_block g b)) as [Ta|]; try discriminate.
+      apply In_nth_error in Hin as [j Hj]. destruct (forall2b_nth_ex _ _ _ _ _ Hx Hj) as [t' [_ Hy]]. cbv beta in Hy.
+      assert (Hm : memN tb db = true) by (apply memN_In; eapply nth_error_In; eauto). rewrite Hm in Hy. simpl in Hy.
+      apply andb_true_iff in Hy as [Hy Hok]. apply andb_true_iff in Hy as [_ Hlt]. apply N.ltb_lt in Hlt.
+      apply arrive_direct; auto using agree_refl. unfold inr. lia.
+  Qed.
 End SPLIT.
 
 Theorem split_check_sound f g F :
